@@ -92,34 +92,10 @@ func (g *GoChannel) Publish(topic string, messages ...*message.Message) error {
 	}
 	verifhook.At("gochannel.publish.after_closed_check", hookID(messages))
 
-	g.subscribersLock.RLock()
-	defer g.subscribersLock.RUnlock()
-	verifhook.At("gochannel.publish.rlocked", hookID(messages))
-
-	subLock, _ := g.subscribersByTopicLock.LoadOrStore(topic, &sync.Mutex{})
-	subLock.(*sync.Mutex).Lock()
-	defer subLock.(*sync.Mutex).Unlock()
-	verifhook.At("gochannel.publish.locked", hookID(messages))
-
-	if g.config.Persistent {
-		g.persistedMessagesLock.Lock()
-		if g.persistedMessages == nil {
-			// Close finished after the closed check at the top of Publish
-			g.persistedMessagesLock.Unlock()
-			return errors.New("Pub/Sub closed")
-		}
-		if _, ok := g.persistedMessages[topic]; !ok {
-			g.persistedMessages[topic] = make([]*message.Message, 0)
-		}
-		g.persistedMessages[topic] = append(g.persistedMessages[topic], messagesToPublish...)
-		g.persistedMessagesLock.Unlock()
-		verifhook.At("gochannel.publish.persisted", hookID(messages))
-	}
-
 	for i := range messagesToPublish {
 		msg := messagesToPublish[i]
 
-		ackedBySubscribers, err := g.sendMessage(topic, msg)
+		ackedBySubscribers, err := g.persistAndSendMessage(topic, msg)
 		if err != nil {
 			return err
 		}
@@ -133,6 +109,40 @@ func (g *GoChannel) Publish(topic string, messages ...*message.Message) error {
 	verifhook.At("gochannel.publish.unlock", hookID(messages))
 
 	return nil
+}
+
+// persistAndSendMessage persists (in persistent mode) and sends one message in a single critical section,
+// so that a concurrent Subscribe sees the message either in the persisted log or as a live message, never both.
+//
+// The locks are released before Publish waits for acks: a subscriber is allowed to publish to this Pub/Sub
+// before it acks, and holding the subscribers read lock while waiting would deadlock that nested Publish
+// as soon as a Subscribe (or an unsubscribe) is waiting for the write lock.
+func (g *GoChannel) persistAndSendMessage(topic string, msg *message.Message) (<-chan struct{}, error) {
+	g.subscribersLock.RLock()
+	defer g.subscribersLock.RUnlock()
+	verifhook.At("gochannel.publish.rlocked", msg.UUID)
+
+	subLock, _ := g.subscribersByTopicLock.LoadOrStore(topic, &sync.Mutex{})
+	subLock.(*sync.Mutex).Lock()
+	defer subLock.(*sync.Mutex).Unlock()
+	verifhook.At("gochannel.publish.locked", msg.UUID)
+
+	if g.config.Persistent {
+		g.persistedMessagesLock.Lock()
+		if g.persistedMessages == nil {
+			// Close finished after the closed check at the top of Publish
+			g.persistedMessagesLock.Unlock()
+			return nil, errors.New("Pub/Sub closed")
+		}
+		if _, ok := g.persistedMessages[topic]; !ok {
+			g.persistedMessages[topic] = make([]*message.Message, 0)
+		}
+		g.persistedMessages[topic] = append(g.persistedMessages[topic], msg)
+		g.persistedMessagesLock.Unlock()
+		verifhook.At("gochannel.publish.persisted", msg.UUID)
+	}
+
+	return g.sendMessage(topic, msg)
 }
 
 func (g *GoChannel) waitForAckFromSubscribers(msg *message.Message, ackedByConsumer <-chan struct{}) {
